@@ -6,6 +6,7 @@ import (
 	"math/rand"
 	"sort"
 	"strings"
+	"sync"
 
 	"gopkg.in/yaml.v3"
 
@@ -195,8 +196,23 @@ func borrowedSpellingClasses(sc *work.Scratch, devs []string, tier string, rng *
 	agg := &tlc.Result{}
 	var evs []*eqEvent
 	nUnits := 0
-	for _, s := range srcs {
-		us, r, err := enumerateKeep(s.module, s.cfg, sc, devs, "quick", "-sp", "", s.keep)
+	type enumOut struct {
+		us  []*Unit
+		r   *tlc.Result
+		err error
+	}
+	outs := make([]enumOut, len(srcs))
+	var wg sync.WaitGroup
+	for i, s := range srcs {
+		wg.Add(1)
+		go func(i int, s src) {
+			defer wg.Done()
+			outs[i].us, outs[i].r, outs[i].err = enumerateKeep(s.module, s.cfg, sc, devs, "quick", "-sp", "", s.keep)
+		}(i, s)
+	}
+	wg.Wait()
+	for i, s := range srcs {
+		us, r, err := outs[i].us, outs[i].r, outs[i].err
 		if err != nil {
 			return nil, nil, 0, err
 		}
@@ -212,6 +228,12 @@ func borrowedSpellingClasses(sc *work.Scratch, devs []string, tier string, rng *
 			}
 			if nb, _ := u.Raw["nobuild"].([]any); len(nb) > 0 {
 				continue
+			}
+			// a document that holds DIFFERENT entries under `$defs` and `definitions` has no legacy spelling
+			if dl, _ := u.Raw["defs"].([]any); len(dl) > 0 {
+				if ll, _ := u.Raw["ldefs"].([]any); len(ll) > 0 {
+					continue
+				}
 			}
 			root, err := unitSchema(u, unitRen(u))
 			if err != nil {
@@ -242,6 +264,18 @@ func borrowedSpellingClasses(sc *work.Scratch, devs []string, tier string, rng *
 			}
 			if len(parsed) == 0 {
 				continue
+			}
+			// a seeded third of the units carries a `$schema` keyword at the root (old / current draft): the spellings of
+			// ONE document must not be told apart by the draft it names
+			if m, ok := parsed[entry].(map[string]any); ok {
+				switch rng.Intn(3) {
+				case 0:
+					m["$schema"] = "https://json-schema.org/draft/2020-12/schema"
+				case 1:
+					if rng.Intn(2) == 0 {
+						m["$schema"] = "http://json-schema.org/draft-04/schema#"
+					}
+				}
 			}
 			render := func(f spellSet) map[string]string {
 				o := map[string]string{}
